@@ -25,9 +25,13 @@ def run(project, rep):
     rep.run(S.m2_update_args, schema, rep)
     rep.run(V.v_rules, schema, rep)
     rep.run(V.v_r8_token_tables, project, rep)
+    rep.rule("V-R12", "every declared child has a storage slot of its own (S-R9): children sharing one descriptor object read and write one value")
+    rep.run(S.s_r9_own_descriptor, schema, rep)
     from .. import rules_types as T
     rep.run(T.t_r7, project, rep)
     rep.run(T.t_r6b_no_context_arithmetic, project, rep)
+    rep.rule("V-R11", "values at a declared limit reach the model: the readers' guards refuse only what is beyond the limit (T-R4)")
+    rep.run(T.t_r4, project, rep)
     from .. import rules_parser as P
     rep.rule("V-R9", "character data reaches the converters as it is in the document (only surrounding whitespace trimmed): tokenizer rules X-R*")
     rep.run(P.x_rules, project, rep)
